@@ -11,6 +11,7 @@ import (
 // C13 — no-nesting keeps Stacks out; CanNest and IsNesting tell the truth (Engine A).
 
 type nestInst struct {
+	capk int
 	s    stackage.Stack
 	c    stackage.Condition
 	isC  bool
@@ -95,11 +96,18 @@ func c13Machine(c *Ctx, kind string, maxL, maxBatch int, classes []string, cond 
 	name := fmt.Sprintf("C13 %s maxlen=%d batch<=%d", kind, maxL, maxBatch)
 	decorated := strings.HasSuffix(kind, "+decorated")
 	kind = strings.TrimSuffix(kind, "+decorated")
+	capk := 0
+	if strings.HasSuffix(kind, "+cap2") {
+		kind, capk = strings.TrimSuffix(kind, "+cap2"), 2
+	}
 	return &Machine[*nestInst]{
 		Name: name,
 		New: func() *nestInst {
 			if cond {
 				return &nestInst{isC: true, c: stackage.Cond("kw", stackage.Eq, "start"), m: []any{"start"}}
+			}
+			if capk > 0 {
+				return &nestInst{s: newStackKind(kind, capk), capk: capk}
 			}
 			if decorated {
 				return &nestInst{s: decorate(newStackKind(kind)).SetMutex().SetErr(errCat).SetNegativeIndices(true)}
@@ -111,6 +119,9 @@ func c13Machine(c *Ctx, kind string, maxL, maxBatch int, classes []string, cond 
 		Enabled: func(in *nestInst, op int) bool {
 			if cond {
 				return true
+			}
+			if in.capk > 0 {
+				return in.s.Len() <= in.capk+3 // growth beyond the capacity is attempted on purpose
 			}
 			return len(in.m)+ops[op].grow <= maxL && in.s.Len()+ops[op].grow <= maxL
 		},
@@ -160,10 +171,13 @@ func c13Machine(c *Ctx, kind string, maxL, maxBatch int, classes []string, cond 
 				for _, cl := range o.classes {
 					v, sl := in.mk(cl)
 					vals = append(vals, v)
-					if !(in.flag && sl) {
+					switch {
+					case in.flag && sl:
+						anyStack = true // refused: it does not use up room either
+					case in.capk > 0 && len(in.m) >= in.capk:
+						// no room left: dropped
+					default:
 						in.m = append(in.m, v)
-					} else {
-						anyStack = true
 					}
 				}
 				in.s.Push(vals...)
@@ -259,6 +273,7 @@ func c13Configs(c *Ctx) []c13Cfg {
 		}
 	}
 	out = append(out, c13Cfg{"OR+decorated", 2, 2, nestClasses, false})
+	out = append(out, c13Cfg{"LIST+cap2", 2, 3, []string{"prim", "stack", "ptr-alias", "cond"}, false}, c13Cfg{"NOT+cap2", 2, 3, []string{"prim", "alias", "nil"}, false})
 	out = append(out, c13Cfg{"CONDITION", 1, 1, []string{"prim", "nil", "stack", "alias", "ptr-alias", "cond", "cond(stack)", "aliasS", "ptr-stack"}, true})
 	return out
 }
